@@ -1,4 +1,5 @@
 """Engine T helpers: literal tables read from the text of the current tree (python AST / .pyx regex)."""
+from vlib.env import Unanchored
 import ast
 import re
 
@@ -10,7 +11,7 @@ def pyx_int_table(rel, name):
     src = env.read(rel)
     m = re.search(r'^' + re.escape(name) + r'\[:\]\s*=\s*\[(.*?)\]', src, re.S | re.M)
     if not m:
-        raise LookupError(f'{rel}: table {name} not found')
+        raise Unanchored(f'{rel}: table {name} not found')
     return [int(x) for x in re.findall(r'-?\d+', m.group(1))]
 
 
@@ -18,7 +19,7 @@ def pyx_name_list(rel, name):
     src = env.read(rel)
     m = re.search(r'^' + re.escape(name) + r'\s*=\s*\[(.*?)\]', src, re.S | re.M)
     if not m:
-        raise LookupError(f'{rel}: list {name} not found')
+        raise Unanchored(f'{rel}: list {name} not found')
     return [x.strip() for x in m.group(1).replace('\n', ' ').split(',') if x.strip()]
 
 
@@ -35,7 +36,7 @@ def find_def(tree, qualname):
                 node = n
                 break
         else:
-            raise LookupError(f'{qualname}: {part} not found')
+            raise Unanchored(f'{qualname}: {part} not found')
     return node
 
 
@@ -47,7 +48,7 @@ def literal_assign(tree, name, scope=None):
             return ast.literal_eval(n.value)
         if isinstance(n, ast.AnnAssign) and isinstance(n.target, ast.Name) and n.target.id == name and n.value is not None:
             return ast.literal_eval(n.value)
-    raise LookupError(name)
+    raise Unanchored(name)
 
 
 def source_of(rel, qualname):
